@@ -391,7 +391,8 @@ prop("C19", "c19",
       dict(run="^TestHostileRemoteResponsesYieldErrorResponses$", quick=800, thorough=8000, shards_thorough=6),
       dict(run="^TestRawRequestsDoNotStopTheService$", quick=150, thorough=1500, shards_thorough=2),
       dict(run="^FuzzRuleSetBytes$", fuzz=True, quick=1, thorough=1, shards_thorough=1, fuzztime_thorough=240, fuzz_workers=6),
-      dict(run="^FuzzKeyStoreBytes$", fuzz=True, quick=1, thorough=1, shards_thorough=1, fuzztime_thorough=240, fuzz_workers=4)],
+      dict(run="^FuzzKeyStoreBytes$", fuzz=True, quick=1, thorough=1, shards_thorough=1, fuzztime_thorough=240, fuzz_workers=4),
+      dict(run="^FuzzRemoteResponseBytes$", fuzz=True, quick=1, thorough=1, shards_thorough=1, fuzztime_thorough=240, fuzz_workers=4)],
      ["a panic recovered by heimdall's own recovery middleware and answered with an error response is not a violation",
       "panics are observed by running the entry points under recover(); in production the same call sites run on bare goroutines"],
      level="Randomised structured mutation plus bounded exhaustive truncation of reloadable and remote inputs against the "
